@@ -82,7 +82,9 @@ static std::vector<std::pair<std::string, std::string>> background() {
     };
 }
 
-static std::string subst(const std::string& body, const std::vector<std::string>& wells) {
+static std::vector<std::string> as_set(const std::vector<std::string>& w) { std::vector<std::string> o; for (auto& x : w) if (std::find(o.begin(), o.end(), x) == o.end()) o.push_back(x); return o; }
+static std::string subst(const std::string& body, const std::vector<std::string>& wells_in) {
+    const std::vector<std::string> wells = as_set(wells_in);
     std::string out; std::istringstream is(body); std::string line;
     while (std::getline(is, line)) { auto p = line.find("'?'"); if (p == std::string::npos) { out += line + "\n"; continue; } for (auto& w : wells) { std::string l = line; l.replace(p, 3, "'" + w + "'"); out += l + "\n"; } }
     return out;
@@ -91,7 +93,8 @@ static const char* months[] = {"FEB", "MAR", "APR", "MAY", "JUN"};
 static const int NSTEPS = 4;       // DATES keywords => report steps 0..4
 
 struct App { int action; int n; int mset; };   // action index (0: A1, 1: A2), report step, matching set index
-static const std::vector<std::vector<std::string>> msets = {{}, {"P1"}, {"P2"}, {"I1"}, {"P1", "P2"}, {"P1", "I1"}, {"P2", "I1"}, {"P1", "P2", "I1"}, {"I1", "I2"}, {"P1", "P2", "I1", "I2"}, {"I2", "I1"}};
+static const std::vector<std::vector<std::string>> msets = {{}, {"P1"}, {"P2"}, {"I1"}, {"P1", "P2"}, {"P1", "I1"}, {"P2", "I1"}, {"P1", "P2", "I1"}, {"I1", "I2"}, {"P1", "P2", "I1", "I2"}, {"I2", "I1"},
+    {"P1", "P1", "P2"}, {"P1", "P2", "P2"}, {"P2", "P1", "P1"}};     // a well named twice: matching wells are a SET, the body is substituted once per well
 
 // deck: prelude, ACTIONX definitions (A1 with body b1, A2 with body b2), background events bg1 in block 1 and bg2 in block 2,
 // and for the reference: inl[k] inserted at the end of block k
